@@ -244,9 +244,30 @@ def _judge_subscript(rep: Report, cu: CUnit, fn: Fn, sub: Dict[str, Any]) -> Non
                 proof = f'{f} and flat was allocated with low_max_end words'
         elif fn.name == 'Memory_set_words':
             facts = {(op, lx.show(a), lx.show(b)) for op, a, b in fn.atomic_facts(sub)}
-            if ('<=', '(start_word+count)', 'self.flat_count') in facts and ('<', 'i', 'count') in facts \
-                    and cu.src_of(idx) == 'start_word + i':
+            # the index (directly or through a single-definition local) is start_word + i
+            forms = [to_lin(c_ir(d, cu.src_of), fn.env) for d in fn.resolved(idx)]
+            is_sum = bool(forms) and all({k: v for k, v in f.items() if v} == {'start_word': 1, 'i': 1} for f in forms)
+            if ('<=', '(start_word+count)', 'self.flat_count') in facts and ('<', 'i', 'count') in facts and is_sum:
                 proof = 'start_word + count <= flat_count and i < count'
+        else:
+            # a static helper that fills / walks the window up to a parameter: every call site passes the allocation count
+            for op, a, b in fn.atomic_facts(sub):
+                if op != '<' or lx.show(b) not in cu.params(fn.name) or lx.show(b) in fn.defs:
+                    continue
+                if not lx.lin_eq(to_lin(a, fn.env), to_lin(c_ir(idx, cu.src_of), fn.env)):
+                    continue
+                pi = cu.params(fn.name).index(lx.show(b))
+                sites = [(caller, c) for caller in cu.funcs for c in walk(cu.body(caller)) if c.get('kind') == 'CallExpr' and callee(c) == fn.name]
+                good = []
+                for caller, c in sites:
+                    arg = cu.src_of(call_args(c)[pi])
+                    cf = _FNS.get(caller) or Fn(cu, caller)
+                    _FNS[caller] = cf
+                    alloc_ok = arg == 'low_max_end' and caller == 'mem_decide_storage' and any(
+                        cu.src_of(d).startswith('(uint64_t*)malloc((size_t)low_max_end') for d in _member_assigns(cu, cf, 'flat'))
+                    good.append(alloc_ok or arg.replace('->', '.') in ('m.flat_count', 'self.flat_count'))
+                if sites and all(good):
+                    proof = f'{lx.show(a)} < {lx.show(b)}, and every call site passes the allocation count of flat'
     elif fam == 'words':
         mb = _mask_bound(fn, idx)
         if mb and mb[0] == 'and' and mb[1] == PAGE_WORDS - 1:
@@ -278,8 +299,8 @@ def _judge_subscript(rep: Report, cu: CUnit, fn: Fn, sub: Dict[str, Any]) -> Non
     elif fam == 'ring':
         mb = _mask_bound(fn, idx)
         if mb and mb[0] == 'mod' and 'last_ops_length' in mb[1]:
-            facts = [t for _, _, t in fn.facts(sub)]
-            if fn.name == 'run_paged_loop_impl' or 'last_ops_ring' in facts:
+            non_null = any(op == 'truthy' and lx.show(a) == 'last_ops_ring' for op, a, b in fn.atomic_facts(sub))
+            if fn.name == 'run_paged_loop_impl' or non_null:
                 proof = 'index % last_ops_length, ring non-NULL (with_ring clone / NULL test) implies length > 0'
     elif fam == 'cstr':
         for op, a, b in fn.atomic_facts(sub):
